@@ -256,11 +256,13 @@ void MEDDLY::dist_inc_mt::_compute(int L, unsigned in,
     //
     // Add nodes in case result forest has a different
     // reduction rule than the input forest.
+    // Add them only from Alevel; if Clevel is below Alevel
+    // then nodes were eliminated in the result forest.
     //
     if (argF->isIdentityReduced()) {
-        cp = resF->makeIdentitiesTo(cp, 0, L, in);
+        cp = resF->makeIdentitiesTo(cp, Alevel, L, in);
     } else {
-        cp = resF->makeRedundantsTo(cp, 0, L);
+        cp = resF->makeRedundantsTo(cp, Alevel, L);
     }
 
 #ifdef TRACE
